@@ -77,6 +77,7 @@ fn main() {
             "C05" => print_replay(&id, props::c05::replay(&name, &path)),
             "C12" => print_replay(&id, props::c12::replay(&name, &path)),
             "C13" => print_replay(&id, props::c13::replay(&name, &path)),
+            "C14" => print_replay(&id, props::c14::replay(&name, &path)),
             _ => {
                 eprintln!("unknown property {id}");
                 2
@@ -89,6 +90,7 @@ fn main() {
             "C05" => props::c05::check(&tier),
             "C12" => props::c12::check(&tier),
             "C13" => props::c13::check(&tier),
+            "C14" => props::c14::check(&tier),
             _ => {
                 eprintln!("unknown property {id}");
                 2
